@@ -154,11 +154,6 @@ class Ctx:
         failed_upstream = False
         for f in gen + run_files:
             names = lemma_names(open(os.path.join(self.build, f)).read()) if f in run_files else []
-            if failed_upstream:
-                for n in names:
-                    self.obligations.append((f'{f}:{n}', 'unchecked', 'an earlier file failed'))
-                    self.broken.append(f'{f}:{n}')
-                continue
             t = time.time()
             rc, out = self.coqc(f, timeout=getattr(self.mod, 'COQ_TIMEOUT', 900))
             out = clean_out(out)
@@ -170,6 +165,16 @@ class Ctx:
                 if f not in run_files:
                     self.obligations.append((f'compile:{f}', 'discharged', ''))
                 print(f'[coq] {f} ok ({dt:.1f}s)')
+            elif failed_upstream and re.search(r'Cannot find a physical path|Cannot find library|inconsistent assumptions|not found in the current', out):
+                # depends on a file that failed earlier in this run
+                ok = False
+                for n in names:
+                    self.obligations.append((f'{f}:{n}', 'unchecked', 'depends on a file that failed'))
+                    self.broken.append(f'{f}:{n}')
+                if not names:
+                    self.obligations.append((f'compile:{f}', 'unchecked', 'depends on a file that failed'))
+                    self.broken.append(f'compile:{f}')
+                print(f'[coq] {f} not checked (depends on a failed file)')
             else:
                 ok = False
                 failed_upstream = True
@@ -496,7 +501,9 @@ def main(argv):
             import traceback
             traceback.print_exc()
             ctx.note(f'search crashed: {ex}')
-        if not found and not any(v.found_input for v in ctx.violations):
+        known = load_known()
+        fresh = [v for v in ctx.violations if (ctx.id, v.key) not in known and v.found_input]
+        if not found and not fresh:      # a KNOWN finding never stands in for the failing input of a broken obligation
             ctx.violation('broken-obligation:' + ctx.broken[0],
                           'proof obligations no longer check: ' + ', '.join(ctx.broken[:8]),
                           {'broken': ctx.broken,
